@@ -136,22 +136,26 @@ def spec_stream(fs, topdir, content, linebuf=None):
 
 
 def spec_assemble(case, linebuf=None):
-    """-> ('ok', exprs, skipped) | ('error',)"""
+    """-> ('ok', exprs, skipped, excluded exprs) | ('error',).  Sources in order; an exclusion file ('x') is read
+    like every ^file, its hosts are excluded instead of targeted; WCOLL only when no source of targets is given"""
     fs = case["fs"]
     stdin = case["stdin"] or ""
-    exprs, skipped = [], 0
-    srcs = case["sources"]
-    if not srcs and case["env"] is not None:
-        srcs = [("s",)] if case["env"] == "-" else [("f", case["env"])]
+    exprs, skipped, excluded = [], 0, []
+    srcs = list(case["sources"])
+    if not any(s[0] != "x" for s in srcs) and case["env"] is not None:
+        srcs.append(("s",) if case["env"] == "-" else ("f", case["env"]))
     try:
         for s in srcs:
             if s[0] == "w":
                 exprs.append(s[1])
-            elif s[0] == "f":
+            elif s[0] in ("f", "x"):
                 if s[1] not in fs or not fs[s[1]][0]:
                     raise SpecError(s[1])
                 e, k = spec_stream(fs, spec_dir(s[1]), fs[s[1]][1], linebuf)
-                exprs += e
+                if s[0] == "f":
+                    exprs += e
+                else:
+                    excluded += e
                 skipped += k
             else:
                 e, k = spec_stream(fs, ".", stdin, linebuf)
@@ -160,7 +164,22 @@ def spec_assemble(case, linebuf=None):
                 skipped += k
     except SpecError:
         return ("error",)
-    return ("ok", exprs, skipped)
+    return ("ok", exprs, skipped, excluded)
+
+
+def target_hosts(exprs, excluded):
+    """the target list: hosts of the expressions in order, minus every host an exclusion file names;
+    None when an excluded name occurs more than once among the targets (how many occurrences an exclusion
+    removes is another property's business)"""
+    hosts = [h for e in exprs for h in expand_expr(e)]
+    ex = {h for e in excluded for h in expand_expr(e)}
+    if any(hosts.count(h) > 1 for h in ex):
+        return None
+    return [h for h in hosts if h not in ex]
+
+
+def opt_kind(o):
+    return ("w", o) if isinstance(o, str) else ("x", o[1])
 
 
 # ------------------------------------------------------------------ generators
@@ -382,11 +401,33 @@ def gen_case(rng, stream, casedir):
             stdin = "\n".join(sl) + ("\n" if sl else "")
         if rng.random() < 0.15:
             env = top_cmd
+    # exclusion files (-x ^F[,^G] / -^F): files of the top directory, named in the command-line style
+    if stream in ("plain", "broken") and rng.random() < 0.3:
+        cand = [n for n in names if ref[n] == n]
+        brokenc = [n for n in cand if n in missing or n in unreadable]
+        pos = rng.randrange(0, len(sources) + 1)
+        for _ in range(rng.choice([1, 2, 2])):
+            xn = rng.choice(brokenc) if (brokenc and rng.random() < 0.5) else rng.choice(cand)
+            xp = cmd_name(place[xn])
+            if xn not in missing:
+                fs_top[xp] = (xn not in unreadable, files[xn])
+            sources.insert(pos, ("x", xp))
+            if rng.random() < 0.3:
+                pos = rng.randrange(0, len(sources) + 1)
     # command line: consecutive sources joined by commas or given as separate -w options
     argv = []
     cur = []
     for s in sources:
-        word = "^" + s[1] if s[0] == "f" else s[1] if s[0] == "w" else None
+        word = "^" + s[1] if s[0] == "f" else s[1] if s[0] == "w" else "-^" + s[1] if s[0] == "x" else None
+        if s[0] == "x" and rng.random() < 0.6:
+            if cur:
+                argv.append(",".join(cur))
+                cur = []
+            if argv and not isinstance(argv[-1], str) and rng.random() < 0.7:
+                argv[-1] = ("x", argv[-1][1] + ",^" + s[1])      # -x ^F,^G
+            else:
+                argv.append(("x", "^" + s[1]))
+            continue
         if s[0] == "s" and (rng.random() < 0.6 or not cur):
             if cur:
                 argv.append(",".join(cur))
@@ -427,8 +468,9 @@ def run_real(pdsh, case, use_exec=False, attempt=0):
     materialise(case)
     env = ["env", "-i", "PATH=/usr/bin:/bin"] + (["WCOLL=" + case["env"]] if case["env"] is not None else [])
     wopts = []
-    for w in case["wargs"]:
-        wopts += ["-w", w]
+    for o in case["wargs"]:
+        k, w = opt_kind(o)
+        wopts += ["-" + k, w]
     stdin = (case["stdin"] or "").encode("latin-1")
     # `-Q` prints through a 1024-byte stack buffer that hostlist_deranged_string overruns (another property's
     # defect): lists that may come near it are observed by letting pdsh act on them (-R exec ... echo %n %h: rank and host)
@@ -485,12 +527,13 @@ def fs_fields(fs):
 
 def model_line(case, mode):
     f = [mode, hx(case["stdin"]) if case["stdin"] is not None else "~", hx(case["env"]) if case["env"] is not None else "~",
-         str(len(case["wargs"]))] + [hx(w) for w in case["wargs"]] + fs_fields(case["fs"])
+         str(len(case["wargs"]))] + [("X" if opt_kind(o)[0] == "x" else "") + hx(opt_kind(o)[1]) for o in case["wargs"]] + \
+        fs_fields(case["fs"])
     return " ".join(f) + "\n"
 
 
 def spec_line(case):
-    srcs = ["s" if s[0] == "s" else "%s:%s" % (s[0], hx(s[1])) for s in case["sources"]]
+    srcs = ["s" if s[0] == "s" else "%s:%s" % (s[0], hx(s[1])) for s in case["sources"]]     # w: f: x: s
     f = [hx(case["stdin"]) if case["stdin"] is not None else "~", hx(case["env"]) if case["env"] is not None else "~",
          str(len(srcs))] + srcs + fs_fields(case["fs"])
     return " ".join(f) + "\n"
@@ -516,7 +559,7 @@ def case_json(c):
         {"full": {"disk": {p: [rd, ct] for p, (rd, ct) in c["disk"].items()},
                   "fs": {p: [rd, ct] for p, (rd, ct) in c["fs"].items()}},
          "cmd": "cd CASEDIR && %s env -i %spdsh -Q %s" % (" ".join(SETPRIV), ("WCOLL=%s " % c["env"]) if c["env"] else "",
-                                                          " ".join("-w '%s'" % w for w in c["wargs"]))}
+                                                          " ".join("-%s '%s'" % opt_kind(o) for o in c["wargs"]))}
 
 
 def case_from_json(j, casedir):
@@ -528,7 +571,7 @@ def case_from_json(j, casedir):
     c["disk"] = {p: (rd, mv(ct)) for p, (rd, ct) in j["full"]["disk"].items()}
     c["fs"] = {mv(p): (rd, mv(ct)) for p, (rd, ct) in j["full"]["fs"].items()}
     c["sources"] = [tuple(mv(x) for x in s) for s in c["sources"]]
-    c["wargs"] = [mv(w) for w in c["wargs"]]
+    c["wargs"] = [mv(o) if isinstance(o, str) else ("x", mv(o[1])) for o in c["wargs"]]
     c["env"] = mv(c["env"])
     c["casedir"] = casedir
     return c
@@ -541,7 +584,7 @@ def judge(ctx, pdsh, cases, mode, linebuf):
         f = ml.split(" ")
         if len(f) != 6 or f[0] != "ok":
             return 0
-        return sum(len(h) + 1 for e in unl(f[3]) for h in expand_expr(e))
+        return sum(len(h) + 1 for e in unl(f[3]) for h in expand_expr(e))   # (before exclusion: an upper bound)
     def spec_bytes(c):
         sp = spec_assemble(c) if c["stream"] not in ("malformed", "colon") else ("error",)
         return sum(len(h) + 1 for e in sp[1] for h in expand_expr(e)) if sp[0] == "ok" else 0
@@ -577,12 +620,14 @@ def judge(ctx, pdsh, cases, mode, linebuf):
             v.append(("disagreement", "model answer", ml[:200]))
         else:
             status, nwarn, created, exprs = mf[0], int(mf[1]), mf[2], unl(mf[3])
-            mhosts = [h for e in exprs for h in expand_expr(e)]
+            mhosts = target_hosts(exprs, unl(mf[4]))
             if status == "starved":
                 v.append(("disagreement", "model ran out of fuel", ml[:100]))
             elif status == "fatal":
                 if r["rc"] != 1 or r["nohosts"]:
                     v.append(("disagreement", "exit", "model: errx, real rc=%s err=%s" % (r["rc"], r["err"][-150:])))
+            elif mhosts is None:
+                pass        # an excluded name occurs twice among the targets: not compared (see target_hosts)
             else:
                 if not mhosts:
                     if r["rc"] != 1 or not r["nohosts"]:
@@ -599,7 +644,8 @@ def judge(ctx, pdsh, cases, mode, linebuf):
         sp = spec_assemble(c)
         # the Lean specification must say the same as the Python reading of the property
         sf = sl.split(" ")
-        lean_sp = ("error",) if sf[0] == "error" else ("ok", unl(sf[2]), int(sf[1])) if len(sf) == 3 else ("bad", sl[:80])
+        lean_sp = ("error",) if sf[0] == "error" else ("ok", unl(sf[2]), int(sf[1]), unl(sf[3])) if len(sf) == 4 \
+            else ("bad", sl[:80])
         if lean_sp != sp:
             v.append(("disagreement", "Opt/WcollSpec.lean vs the check's reading of the property",
                       "lean %r python %r" % (str(lean_sp)[:200], str(sp)[:200])))
@@ -609,8 +655,10 @@ def judge(ctx, pdsh, cases, mode, linebuf):
                 bad = ("unreadable-not-error", "a source or included file is unreadable/missing but pdsh exits %s with "
                        "hosts %r" % (r["rc"], (r["hosts"] or [])[:6]))
         else:
-            hosts = [h for e in sp[1] for h in expand_expr(e)]
-            if not hosts:
+            hosts = target_hosts(sp[1], sp[3])
+            if hosts is None:
+                pass
+            elif not hosts:
                 if r["rc"] != 1 or not r["nohosts"]:
                     bad = ("empty-list", "no hosts named, pdsh rc=%s" % r["rc"])
             elif r["rc"] != 0:
@@ -620,11 +668,11 @@ def judge(ctx, pdsh, cases, mode, linebuf):
                 sig = "hosts"
                 if max_line(c) >= 2047 and linebuf:
                     sp2 = spec_assemble(c, linebuf=linebuf)
-                    if sp2[0] == "ok" and [h for e in sp2[1] for h in expand_expr(e)] == r["hosts"]:
+                    if sp2[0] == "ok" and target_hosts(sp2[1], sp2[3]) == r["hosts"]:
                         sig = "line-split-by-fgets"
                 bad = (sig, "target list differs at position %d: pdsh %r, property %r (list lengths %d / %d)" %
                        (k, r["hosts"][max(0, k - 1):k + 3], hosts[max(0, k - 1):k + 3], len(r["hosts"]), len(hosts)))
-            elif r["nmulti"] != sp[2]:
+            if bad is None and sp[0] == "ok" and r["rc"] == 0 and r["nmulti"] != sp[2]:
                 bad = ("skip-warning", "%d file(s) reached a second time, %d warning(s)" % (sp[2], r["nmulti"]))
         if bad:
             v.append(("offender", bad[0], bad[1]))
@@ -672,8 +720,8 @@ def run(ctx):
                    "./, ../, absolute, and names that merely start with dots (.extraB, ..racksB, .d/listB: hidden "
                    "files/sub-directories, with decoy files of the same name in the current directory); pdsh runs in a "
                    "directory other than the top file's in 3 of 4 cases; comments, blanks, trailing comments, final line with and without newline) x "
-                   "source lists (^file, -w words, `-`/`^-` = stdin, WCOLL, comma-joined or separate -w options, all "
-                   "orders); streams: plain, broken (missing / mode-000 file, run as uid 1000), long (lines around "
+                   "source lists (^file, -w words, `-`/`^-` = stdin, WCOLL, exclusion files as `-x ^F` or `-^F`, comma-joined "
+                   "or separate options, all orders); streams: plain, broken (missing / mode-000 file, run as uid 1000), long (lines around "
                    "1023/2046/2047/2048/4095/6141 and up to 100 KiB made of a few short names placed across the buffer "
                    "boundaries in long runs of blanks/tabs/commas, optional comment tail; every name far below 1023 "
                    "bytes and every list far below the 1024-byte -Q buffer), malformed #include lines and a ':' in the "
@@ -747,6 +795,11 @@ def run(ctx):
                 dist["rc"][str(r["rc"])] = dist["rc"].get(str(r["rc"]), 0) + 1
                 dist["with_stdin"] += 1 if c["stdin"] is not None else 0
                 dist["with_env"] += 1 if c["env"] is not None else 0
+                if any(x[0] == "x" for x in c["sources"]):
+                    dist["with_exclusion_file"] = dist.get("with_exclusion_file", 0) + 1
+                    sp0 = spec_assemble(c) if c["stream"] not in ("malformed", "colon") else ("error",)
+                    if sp0[0] == "ok" and target_hosts(sp0[1], sp0[3]) is None:
+                        dist["exclusion_list_not_compared"] = dist.get("exclusion_list_not_compared", 0) + 1
                 dist["skips"] += r.get("nmulti", 0)
                 if "flaky_first_rc" in r:
                     dist["crash_not_reproduced_on_rerun"] = dist.get("crash_not_reproduced_on_rerun", 0) + 1
